@@ -8,7 +8,7 @@ pub fn run(ctx: &Ctx) -> Report {
     let two = vec![(0u64, DEFAULT_SECONDARY), (3887u64, 37u64)];
     let plans = vec![
         Plan { fam: "F1", styles: two.clone(), debug: vec![false, true], stride: 1 },
-        Plan { fam: "F2", styles: plain.clone(), debug: vec![true], stride: ctx.pick(37, 3) },
+        Plan { fam: "F2", styles: plain.clone(), debug: vec![true], stride: ctx.pick(37, 2) },
         Plan { fam: "FENCE", styles: two.clone(), debug: vec![true], stride: 1 },
         Plan { fam: "LIM", styles: two.clone(), debug: vec![true], stride: 1 },
         Plan { fam: "BLK", styles: two.clone(), debug: vec![true], stride: 1 },
